@@ -11,7 +11,7 @@
    that covers it.  Both are stated for ALL parameters of D (destination states, thresholds, pooled buffers, the
    behaviour of zlib, fuel). *)
 From Coq Require Import List NArith ZArith.
-From GoMC Require Import Base.Bytes Base.Dec Gen.Consts Model.C09 Proofs.C09 Proofs.C09_writer Proofs.C09_inst.
+From GoMC Require Import Base.Bytes Base.Dec Gen.Consts Model.C09 Proofs.C09 Proofs.C09_writer Proofs.C09_more Proofs.C09_inst.
 From GoMC Require Model.C05 Model.C06 Model.C07 Model.C16 Model.C11 Model.C01.
 Import ListNotations.
 Open Scope N_scope.
@@ -171,6 +171,79 @@ Example C09_ex_write :
   write_to (fld_calls Model.C06.TString (Model.C06.VBytes [104; 105] [])) 3 = WDone [2; 104; 105].
 Proof. repeat split; vm_compute; reflexivity. Qed.
 
+(* ================================================================== phase 2 *)
+(* the source interpretation of a robust decoder is EXACTLY the labelled linear-time flat run on the concatenation
+   (error label included); with io.EOF as the label that is run_flat.  (The driver runs run_flat_t instead of
+   run_src on inputs beyond 1500 bytes.) *)
+Theorem C09_src_fast : forall A (d : dec A), robust d ->
+  forall tg term s, run_src d tg term s = run_flat_t term d (concat s).
+Proof. exact @src_flat_t. Qed.
+Theorem C09_flat_t_eof : forall A (d : dec A) s, run_flat_t eEOF d s = run_flat d s.
+Proof. exact @run_flat_t_eof. Qed.
+
+(* NBT into struct / pointer / fixed array / RawMessage-field destinations (Model/C03.v), any shape, any current
+   value of the destination *)
+Theorem C09_fragment_nbt_struct : forall f fuel sh cur, frag_invariant (d_nbt_st f fuel sh cur).
+Proof. exact (fun f fuel sh cur => robust_frag_invariant _ (rb_nbt_st f fuel sh cur)). Qed.
+Theorem C09_fault_nbt_struct : forall f fuel sh cur, fault_safe (d_nbt_st f fuel sh cur).
+Proof. exact (fun f fuel sh cur => robust_fault_safe _ (rb_nbt_st f fuel sh cur)). Qed.
+
+(* pk.NBTField.ReadFrom around ANY fragmentation-proof destination decoder: counting wrapper + ErrEND rule *)
+Theorem C09_fragment_nbtfield : forall A (body : N -> dec A), (forall id, robust (body id)) ->
+  frag_invariant (d_nbtfield body).
+Proof. exact @nbtfield_frag. Qed.
+Theorem C09_fault_nbtfield : forall A (body : N -> dec A), (forall id, robust (body id)) ->
+  fault_safe (d_nbtfield body).
+Proof. exact @nbtfield_fault. Qed.
+(* ... the count it returns with a nil error is what was taken from the source, and the residual is the rest *)
+Theorem C09_nbtfield_count : forall A (body : N -> dec A), (forall id, robust (body id)) ->
+  forall s v n rest, run_flat (d_nbtfield body) s = FOk (v, n) rest ->
+  run_flat (nbtfield_body body) s = FOk v rest /\ n = consumed (nbtfield_body body) s /\ lenN s = n + lenN rest.
+Proof. exact @nbtfield_count. Qed.
+(* ... and the count it returns with an error (nbtfield_errn = consumed) never exceeds what the source delivered;
+   for any robust decoder `consumed` is exact on success *)
+Theorem C09_consumed_le : forall A (d : dec A) s, consumed d s <= lenN s.
+Proof. exact @consumed_le. Qed.
+Theorem C09_consumed_exact : forall A (d : dec A), robust d ->
+  forall s a rest, run_flat d s = FOk a rest -> lenN s = consumed d s + lenN rest.
+Proof. exact @consumed_ok. Qed.
+
+(* PluginMessageData (io.ReadAll), a reader that ENDS ON EOF: for every division of the stream and wherever the
+   terminal error arrives, the value is the concatenation of what was delivered and the count its length; the
+   result is nil-error exactly when the source ended with io.EOF.  So fragmentation invariance holds in full,
+   the failure clause holds for every error other than io.EOF, and a stream cut short by io.EOF is - by the
+   design of this field - a shorter message, not a failure. *)
+Theorem C09_plugin : forall tg term s,
+  plugin_read tg term s = (concat s, lenN (concat s), if term =? eEOF then None else Some term).
+Proof. exact plugin_read_spec. Qed.
+
+(* THE COUNT RETURNED TOGETHER WITH AN ERROR (errn: read off every ReadFrom of net/packet, see Model/C09.v) is a
+   function of the bytes delivered (so it cannot depend on the fragmentation) and never exceeds their number,
+   for every field type, destination state and input; same for BitStorage.ReadFrom *)
+Theorem C09_errn_le : forall fuel t old s, errn fuel t old s <= lenN s.
+Proof. exact errn_le. Qed.
+Theorem C09_errn_bits_le : forall s, errn_bits s <= lenN s.
+Proof. exact errn_bits_le. Qed.
+
+(* writers: documents containing Marshaler values (RawMessage: one Write of its Data; dynbt Values: one Write per
+   scalar / string / array, structure for lists and compounds) *)
+Theorem C09_write_nbt_marshaler : forall f name w,
+  writer_safe (wt_doc_calls f name w) (Model.C01.doc f name (untree w)).
+Proof. exact ws_nbt_marshaler. Qed.
+Theorem C09_dyn_value_tree : forall t, untree (dyn_w t) = t.
+Proof. exact untree_dyn_w. Qed.
+
+Example C09_ex_errn :
+  errn 5 (Model.C06.TAry Model.C06.LVarInt Model.C06.TShort) (Model.C06.VList [] []) [3; 0; 1; 0] = 4 /\
+  errn 5 Model.C06.TString (Model.C06.VBytes [] []) [5; 2] = 1 /\
+  errn 5 (Model.C06.TPair Model.C06.TVarInt (Model.C06.TPair Model.C06.TShort Model.C06.TUnit)) Model.C06.VUnit [1; 2] = 1.
+Proof. repeat split; vm_compute; reflexivity. Qed.
+Example C09_ex_nbtfield :
+  run_flat (d_nbtfield_any 9) [0; 7] = FOk (None, 1) [7] /\
+  run_flat (d_nbtfield_any 9) [1; 5; 7] = FOk (Some (Model.C01.AByte 5%Z), 2) [7] /\
+  nbtfield_errn (Model.C01.dec_any 9) [8; 0; 3; 104] = 4.
+Proof. repeat split; vm_compute; reflexivity. Qed.
+
 Print Assumptions C09_src_is_chunked.
 Print Assumptions C09_fragment_generic.
 Print Assumptions C09_fault_generic.
@@ -216,3 +289,17 @@ Print Assumptions C09_write_frame.
 Print Assumptions C09_write_rcon.
 Print Assumptions C09_write_bitstorage.
 Print Assumptions C09_write_nbt.
+Print Assumptions C09_src_fast.
+Print Assumptions C09_flat_t_eof.
+Print Assumptions C09_fragment_nbt_struct.
+Print Assumptions C09_fault_nbt_struct.
+Print Assumptions C09_fragment_nbtfield.
+Print Assumptions C09_fault_nbtfield.
+Print Assumptions C09_nbtfield_count.
+Print Assumptions C09_consumed_le.
+Print Assumptions C09_consumed_exact.
+Print Assumptions C09_plugin.
+Print Assumptions C09_errn_le.
+Print Assumptions C09_errn_bits_le.
+Print Assumptions C09_write_nbt_marshaler.
+Print Assumptions C09_dyn_value_tree.
